@@ -232,6 +232,8 @@ Export ==
                               si |-> si, so |-> so,
                               seq |-> rec.seq, qual |-> rec.qual, rqual |-> Expected.qual,
                               t0 |-> t0, t1 |-> t1,
+                              \* quality lines that make t0 malformed (one score missing / one too many): Read must reject
+                              badq |-> IF fmt = "fastq" /\ len > 1 THEN <<Tail(t0[4]), Append(t0[4], si)>> ELSE <<>>,
                               cls |-> fmt \o "/" \o shape \o (IF def = "" THEN "" ELSE "+def")])>>,
              IOEnv.VERIF_CASES)
 =============================================================================
